@@ -1,9 +1,11 @@
 #!/bin/sh
-# usage: selftest/eval_seeds.sh CNN  (expects /var/tmp/seed_CNN/out/{1,2,3})
-P=$1
+# usage: selftest/eval_seeds.sh CNN [srcdir [tag]]
+#   default srcdir /var/tmp/seed_CNN/out (expects {1,2,3}); with tag the copies are seeded/CNN-<tag>-n
+P=$1; SRC=${2:-/var/tmp/seed_$P/out}; TAG=${3:+$3-}
 for n in 1 2 3; do
-  S=/var/tmp/seed_$P/out/$n; [ -f $S/patch.diff ] || continue
-  mkdir -p seeded/$P-$n; cp -r $S/* seeded/$P-$n/
-  echo "=== $P-$n verify"; selftest/verify_seed.sh seeded/$P-$n 2>&1 | grep -E 'HEAD:|PATCHED:|demo rc|failed|not apply' | cut -c1-160
-  echo "=== $P-$n check"; selftest/with_mutant.sh seeded/$P-$n/patch.diff -- ./check $P --tier quick 2>&1 | grep -E 'violation:|^VIOLATION|done:|MACHINERY|BUILD-ERROR' | cut -c1-220 | sort | uniq -c | sort -rn | head -4
+  S=$SRC/$n; [ -f $S/patch.diff ] || continue
+  T=seeded/$P-$TAG$n
+  mkdir -p $T; cp -r $S/* $T/
+  echo "=== $T verify"; selftest/verify_seed.sh $T 2>&1 | grep -E 'HEAD:|PATCHED:|demo rc|failed|not apply' | cut -c1-160
+  echo "=== $T check"; selftest/with_mutant.sh $T/patch.diff -- ./check $P --tier quick 2>&1 | grep -E 'violation:|^VIOLATION|done:|MACHINERY|BUILD-ERROR' | cut -c1-220 | sort | uniq -c | sort -rn | head -4
 done
